@@ -2,7 +2,7 @@
 import sockcheck
 import sockgen
 
-LEAN_MODULES = ["PyAirtouch.Props.C01", "PyAirtouch.Props.C01Order"]
+LEAN_MODULES = ["PyAirtouch.Props.C01", "PyAirtouch.Props.C01Order", "PyAirtouch.Props.C01Loss"]
 LEVEL = "proof"
 MONITORS = ["c01a", "c01b", "c01c", "c01d", "c02a", "c02b"]
 
